@@ -42,9 +42,7 @@ def _judge(cls, data):  # pylint: disable=too-many-return-statements,too-many-br
             reach()
             return True
         except Exception as exc:  # pylint: disable=broad-except
-            if api.tolerated(exc):
-                return True
-            raise
+            return api.escaped(exc)
         reach()
         return True
     try:
@@ -79,16 +77,12 @@ def _judge(cls, data):  # pylint: disable=too-many-return-statements,too-many-br
     try:
         composed = bytes(obj.compose())
     except Exception as exc:  # pylint: disable=broad-except
-        if api.tolerated(exc):
-            return True
-        raise
+        return api.escaped(exc)
     reach()
     try:
         obj2 = cls.parse_exact_size(composed)
     except Exception as exc:  # pylint: disable=broad-except
-        if api.tolerated(exc):
-            return True
-        raise
+        return api.escaped(exc)
     if not deep_eq(obj2, obj):
         api.note('re-parsed object differs')
         return False
